@@ -52,6 +52,7 @@ def stepDom (d : Dom) (toks : List String) : Dom × String :=
   | .full =>
     match toks with
     | ["converge", _] => (d, "full converged")     -- C01.convergence: the last operation per id wins on every node
+    | ["joinwrite"] => (d, "full ok")               -- C06 (C06d): an acknowledged write at All is on every member of the moment it was issued
     | ["leave"] => (d, "full safe")                 -- C16: a departed member is no longer replicated to
     | ["rejoin"] => (d, "full safe")                -- C16: a member back under a new address is held, and replicated to, at that address
     | _ => (d, "bad-op")
